@@ -551,7 +551,8 @@ func (j *jsonReader) Interval(tag int) (time.Duration, error) {
 		if parsed > math.MaxInt64 {
 			return 0, Errorf("integer is out of bound")
 		}
-		return time.Duration(parsed), j.Next()
+		//nolint:gosec // this cast is safe as we are parsing a 32 bits value
+		return time.Duration(parsed) * time.Second, j.Next()
 	default:
 		return 0, Errorf("Invalid interval value %q", val)
 	}
